@@ -61,7 +61,20 @@ def configs(tier, seed):
                 out.append(dict(h="items_where", op=cmp_, key=f"items_where/{shape}/{cmp_}", xd=xd, lens=lens, cmp=cmp_))
         for l in xd:
             out.append(dict(h="split", op="split", key=f"split/{shape}/{l}", xd=xd, lens=lens, l=l))
+    # tuple keys whose items of one dimension are not adjacent (writes: a list selection; reads: refused)
+    for shape in ["a3b2", "a2b2c2", "b3a2"]:
+        xd, lens = _parse(shape)
+        items = [(l, i) for l in xd for i in range(lens[l])]
+        for k in (2, 3):
+            for tup in itertools.permutations(items, k):
+                if len({l for l, _ in tup}) == k:
+                    continue  # one item per dimension: already covered by the tuple spelling of the read/write harness
+                out.append(dict(h="tuple_key", op="tuple", key=f"tuple_key/{shape}/" + ",".join(f"{l}{i}" for l, i in tup), xd=xd, lens=lens, tup=[list(t) for t in tup]))
+    for form in ("bare", "tuple1", "dict", "name"):
+        for rhs in ("number", "ndarray", "read"):
+            out.append(dict(h="falsy_label", op="falsy", key=f"falsy_label/{form}/{rhs}", xd="ab", lens=dict(a=3, b=2), form=form, rhs=rhs))
     out.append(dict(h="ambiguous", op="amb", key="ambiguous/shared-item", xd="ab", lens=dict(a=2, b=2)))
+    out.append(dict(h="shared_labels", op="shared", key="shared_labels/two-dims-same-labels-other-positions", xd="ab", lens=dict(a=3, b=4)))
     return out
 
 
@@ -96,9 +109,79 @@ def run(cfg, w):
         r = x["p", "r"]
         w.ob_eq("two_unique_items", r.values[()], X[0, 1])
         return
+    if h == "falsy_label":
+        # labels that are falsy in Python (0, 0.0, "") address their entries like any other label
+        da = Dimension(name="Age", letter="a", items=[0, 1, 2], dtype=int)
+        db = Dimension(name="Beta", letter="b", items=["", "b2"])
+        X = w.arr("x", (3, 2))
+        x = FlodymArray(dims=DimensionSet(dim_list=[da, db]), values=X.copy())
+        key = {"bare": 0, "tuple1": (0,), "dict": {"a": 0}, "name": {"Beta": ""}}[cfg["form"]]
+        in_region = (lambda idx: idx[0] == 0) if cfg["form"] != "name" else (lambda idx: idx[1] == 0)
+        rshape = (2,) if cfg["form"] != "name" else (3,)
+        if cfg["rhs"] == "read":
+            r = x[key]
+            w.ob("dims", tuple(r.dims.letters) == (("b",) if cfg["form"] != "name" else ("a",)))
+            w.ob_arr_eq("entries", r.values, X[0] if cfg["form"] != "name" else X[:, 0])
+            return
+        if cfg["rhs"] == "number":
+            k = w.real("k")
+            x[key] = k
+            want = lambda pos: k
+        else:
+            R = w.arr("r", rshape)
+            R0 = R.copy()
+            x[key] = R
+            want = lambda pos: R0[pos]
+        for idx in np.ndindex(3, 2):
+            if in_region(idx):
+                w.ob(f"inside{list(idx)}", w.same(x.values[idx], want(idx[1] if cfg["form"] != "name" else idx[0])))
+            else:
+                w.ob(f"outside{list(idx)}", w.same(x.values[idx], X[idx]))
+        return
+    if h == "shared_labels":
+        # two dimensions listing the same labels at other positions: a named selection uses its own dimension's positions
+        da = Dimension(name="Origin", letter="a", items=["EUR", "USA", "CHN"])
+        db = Dimension(name="Destination", letter="b", items=["USA", "CHN", "EUR", "IND"])
+        X = w.arr("x", (3, 4))
+        x = FlodymArray(dims=DimensionSet(dim_list=[da, db]), values=X.copy())
+        for i, it in enumerate(da.items):
+            w.ob_arr_eq(f"origin[{it}]", x[{"a": it}].values, X[i])
+            w.ob_arr_eq(f"origin_by_name[{it}]", x[{"Origin": it}].values, X[i])
+        for j, it in enumerate(db.items):
+            w.ob_arr_eq(f"destination[{it}]", x[{"b": it}].values, X[:, j])
+        w.ob_eq("both", x[{"a": "CHN", "b": "EUR"}].values[()], X[2, 2])
+        sub = Dimension(name="SubOrigin", letter="u", items=["CHN", "EUR"])
+        w.ob_arr_eq("subset", x[{"a": sub}].values, X[[2, 0]])
+        k = w.real("k")
+        x[{"a": ["USA", "EUR"], "b": "IND"}] = k
+        for idx in np.ndindex(3, 4):
+            w.ob(f"after_write{list(idx)}", w.same(x.values[idx], k if (idx[0] in (0, 1) and idx[1] == 3) else X[idx]))
+        parts = x.split("a")
+        for i, it in enumerate(da.items):
+            w.ob_arr_eq(f"split[{it}]", parts[it].values, np.where(np.arange(4) == 3, 1, 0) * 0 + x.values[i])
+        return
     shape = tuple(lens[l] for l in xd)
     X = w.arr("x", shape)
     x = FlodymArray(dims=make_dimset(xd, lens, dims), values=X.copy(), name="xx")
+    if h == "tuple_key":
+        tup = [tuple(t) for t in cfg["tup"]]
+        key = tuple(dims[l].items[i] for l, i in tup)
+        per_dim = {}
+        for l, i in tup:
+            per_dim.setdefault(l, [])
+            if i not in per_dim[l]:
+                per_dim[l].append(i)
+        try:
+            x[key]
+            w.ob("several_items_of_one_dimension_refused_on_read", False, info=str(key))
+        except Exception:
+            w.ob("several_items_of_one_dimension_refused_on_read", True)
+        k = w.real("k")
+        x[key] = k
+        for idx in np.ndindex(*shape):
+            inside = all((idx[xd.index(l)] in sel) for l, sel in per_dim.items())
+            w.ob(f"{'inside' if inside else 'outside'}{list(idx)}", w.same(x.values[idx], k if inside else X[idx]))
+        return
     if h == "read":
         sel = _sel(cfg)
         key, subdims = build_key(sel, xd, dims, cfg["sp"])
